@@ -137,6 +137,14 @@ C06_SameAsSerial ==
      /\ \A e \in SeqSet(ev.errs) \cup SeqSet(g.expect.errs) : CountIn(ev.errs, e) = CountIn(g.expect.errs, e)
      /\ SameFn(g.expect.ws, WsContents)
 
+\* where the threads run freely (the real binary) there is no serial reference run; what can be said of one observed schedule is that
+\* it reports no failure that the schedule-independent prediction does not contain ("independent rules that happen to produce or need
+\* byte-identical files never make each other fail") and, when the build succeeds, that every target holds the predicted content
+C06_NoSpuriousFailure ==
+  (Graded /\ EnvFreeScope /\ rdir.nodir = {}) =>
+     /\ \A e \in SeqSet(ev.errs) : CountIn(ev.errs, e) <= ExpCount(e)
+     /\ (ev.verdict = "ok" /\ Distinct) => \A p \in Scope : Has(ws, p) /\ ws[p].c = Scratch(p)
+
 (* ---------------- C07 ------------------------------------------------------ *)
 C07_ContentAddressed == Distinct => \A n \in DOMAIN cache : cache[n].c = n
 
